@@ -68,6 +68,24 @@ def generate(rng, tier):
                 want = pyref.integrity(b"".join(f), salt, pk).hex() + " ~0"
                 for which in ("win", "mac"):
                     cs.append(Case("integ.%s %s %s %s" % (which, " ".join(hx(x) for x in f), salt.hex(), pk.hex()), "file-%ss-with-a-format-marker" % ("start" if where == "head" else "end"), want, dict(n=sum(map(len, f)))))
+    # contents BUILT from the byte strings the change introduced (empty on the unchanged tree): new literal as head, random filling up to every
+    # small length the source mentions, new literal (or nothing) as tail — a special case keyed on "starts with X, N bytes long, ends with Y"
+    nb = new_literals()[1]
+    if nb:
+        lens = sorted(set(dict_ints(1, 64)) | set(range(0, 13)))
+        for head in nb:
+            for tail_ in [b""] + nb:
+                for n_ in lens:
+                    if n_ < len(head): continue
+                    content = head + rbytes(rng, n_ - len(head)) + tail_
+                    slot = rng.randrange(5)
+                    for slot in sorted(set([slot, 4, 0])):
+                        f = [rbytes(rng, rng.randint(0, 6)) for _ in range(5)]
+                        f[slot] = content
+                        salt, pk = rbytes(rng, 16), rbytes(rng, 32)
+                        want = pyref.integrity(b"".join(f), salt, pk).hex() + " ~0"
+                        for which in ("win", "mac"):
+                            cs.append(Case("integ.%s %s %s %s" % (which, " ".join(hx(x) for x in f), salt.hex(), pk.hex()), "file-built-from-new-source-literals", want, dict(n=sum(map(len, f)))))
     # files with EQUAL contents next to each other, equal files apart, empty files between equal ones, a periodic buffer cut at its period:
     # every file counts, however it compares with its neighbours
     for _ in range(10 if tier == "quick" else 300):
